@@ -206,9 +206,19 @@ structure Scope where
   vals : List (Str × Val)
   units : List (Str × Str)
 
+/-- one record of `op_metrics`: the `task` key (absent in race files before Rally 0.8.0), the `operation`
+    key and the values -/
 structure TaskM where
-  name : Str
+  task : Option Str
+  operation : Str
   sc : Scope
+
+/-- `r.get("task", r["operation"])`: the name a record is listed and looked up under – the operation only
+    counts when the record has no task key at all -/
+def TaskM.name (t : TaskM) : Str :=
+  match t.task with
+  | some n => n
+  | none => t.operation
 
 structure Entry where
   id : Str
@@ -267,7 +277,8 @@ def active (showProc : Bool) (s : RowSpec) : Bool := !s.needsProc || showProc
 def scopeRows (plain showProc : Bool) (specs : List RowSpec) (task : Str) (b c : Scope) : List Row :=
   (specs.filter (active showProc)).filterMap (fun s => line plain s task b c)
 
-/-- `GlobalStats.metrics(task)`: first record with that name -/
+/-- `GlobalStats.metrics(task)`: first record `r` with `r.get("task", r["operation"]) == task`
+    (`GlobalStats.tasks()` is `b.tasks.map TaskM.name`, the loop of `taskRows`) -/
 def findTask (n : Str) : List TaskM → Option TaskM
   | [] => none
   | t :: rest => if t.name = n then some t else findTask n rest
